@@ -400,10 +400,10 @@ def r04_4(ctx):
             err_e = {eid for eid, succ, vs in C.edge_variants(ri, sbb, c, ctx.lib) if vs == {"Err"}}
             if not err_e:
                 continue
-            reached = ri.reachable_from_edges(err_e, cut=out_edges(ri, errs))
+            reached = C.after_edges(ri, err_e, cut=out_edges(ri, errs))
             # drop elaboration re-tests the discriminant at the end of the scope to drop what was not moved out: such a switch is
             # followed only by drops / gotos / drop-flag updates (no call, no real assignment) until the loop head or the return
-            stop = ri.reachable_from_edges(err_e, cut=out_edges(ri, heads | {x for x in reached if ri.term(x)["k"] == "return"}))
+            stop = C.after_edges(ri, err_e, cut=out_edges(ri, heads | {x for x in reached if ri.term(x)["k"] == "return"}))
             if not any(ri.term(x)["k"] == "call" and x not in heads for x in stop) and not any(
                     st["k"] == "assign" and not (st["rv"]["k"] == "use" and st["rv"]["op"]["k"] == "const") and st["rv"]["k"] != "discriminant"
                     for x in stop if x not in heads for st in ri.blocks[x]["stmts"]):
@@ -490,7 +490,7 @@ def r04_7(ctx):
         ctx.anchor_missing("TryRecvError::Disconnected arm in the coordinator loop")
         return
     errs = set(err_sites(b))
-    reached = b.reachable_from_edges(dis, cut=out_edges(b, errs))
+    reached = C.after_edges(b, dis, cut=out_edges(b, errs))
     escapes = [bb for bb in reached if b.term(bb)["k"] == "return" or bb in ok_sites(b) or
                (b.term(bb)["k"] == "call" and C.callee_name(b.term(bb)) in (ROLE["take_remaining"], "std::sync::mpsc::Receiver::<T>::try_recv"))]
     if (errs & reached) and not escapes:
